@@ -309,8 +309,9 @@ fn parse_v1_block<R: Read + Seek>(
     header: RootBlockHeader,
     count: usize,
 ) -> Result<RootBlock> {
-    // Read ALL deltas first
-    let mut deltas = Vec::with_capacity(count);
+    // Read ALL deltas first (the count is untrusted: reserve at most what the
+    // remaining input can hold, 4 bytes per delta)
+    let mut deltas = Vec::with_capacity(count.min(remaining_deltas(reader)?));
     for _ in 0..count {
         deltas.push(u32::read_le(reader)?);
     }
@@ -328,6 +329,14 @@ fn parse_v1_block<R: Read + Seek>(
     }
 
     Ok(RootBlock { header, records })
+}
+
+/// Number of 4-byte deltas the rest of the stream can hold (position is restored).
+fn remaining_deltas<R: Read + Seek>(reader: &mut R) -> Result<usize> {
+    let pos = reader.stream_position()?;
+    let end = reader.seek(std::io::SeekFrom::End(0))?;
+    reader.seek(std::io::SeekFrom::Start(pos))?;
+    Ok(usize::try_from(end.saturating_sub(pos) / 4).unwrap_or(usize::MAX))
 }
 
 /// Decode FileDataIDs from deltas using TACT.Net format
@@ -358,7 +367,8 @@ fn parse_v2_block<R: Read + Seek>(
     content_flags: ContentFlags,
 ) -> Result<RootBlock> {
     // Read ALL deltas FIRST (this is the key difference!)
-    let mut deltas = Vec::with_capacity(count);
+    // The count is untrusted: reserve at most what the remaining input can hold.
+    let mut deltas = Vec::with_capacity(count.min(remaining_deltas(reader)?));
     for _ in 0..count {
         deltas.push(u32::read_le(reader)?);
     }
